@@ -98,7 +98,20 @@ func mutateLeaf(r *rand.Rand, v gen.Val) gen.Val {
 	case "num":
 		return gen.Num(v.N + 1)
 	case "float":
-		return gen.Float(math.Float64frombits(v.Bits) + 1)
+		f := math.Float64frombits(v.Bits)
+		switch r.Intn(4) {
+		case 0:
+			return gen.Float(-f) // 0.0 and -0.0 are distinct constants
+		case 1:
+			if g := math.Float64frombits(v.Bits ^ 1); !math.IsNaN(g) && !math.IsInf(g, 0) {
+				return gen.Float(g) // neighbouring float: needs all 17 digits
+			}
+		case 2:
+			if g := float64(float32(f)); !math.IsNaN(g) && !math.IsInf(g, 0) {
+				return gen.Float(g)
+			}
+		}
+		return gen.Float(f + 1)
 	case "str":
 		return gen.Str(v.S + "x")
 	case "bytes":
